@@ -749,9 +749,17 @@ Proof. intro H. unfold eff_limit. apply Z.leb_le in H. now rewrite H. Qed.
 Lemma eff_limit_set n : (0 < n)%Z -> eff_limit n = n.
 Proof. intro H. unfold eff_limit. apply Z.leb_gt in H. now rewrite H. Qed.
 
-Lemma max_read_le limit total :
-  (Z.of_N (max_read limit total) <= eff_limit limit)%Z /\ (max_read limit total <= total)%N.
-Proof. unfold max_read. pose proof (eff_limit_pos limit). lia. Qed.
+(* whatever reads through limitReader obtains a prefix of the body of at most the limit *)
+Lemma seen_spec limit body :
+  (Z.of_nat (length (seen limit body)) <= eff_limit limit)%Z /\
+  (exists rest, body = seen limit body ++ rest) /\
+  ((Z.of_nat (length body) <= eff_limit limit)%Z -> seen limit body = body).
+Proof.
+  pose proof (eff_limit_pos limit) as Hp. unfold seen. split; [|split].
+  - pose proof (firstn_le_length (Z.to_nat (eff_limit limit)) body). lia.
+  - exists (skipn (Z.to_nat (eff_limit limit)) body). symmetry. apply firstn_skipn.
+  - intro H. apply firstn_all2. lia.
+Qed.
 
 Lemma limit_size_spec limit size :
   limit_size_rejects limit size = true <-> (eff_limit limit < size)%Z.
@@ -767,9 +775,6 @@ Section Bytes.
   Definition is_document (d : str) (v : A) : Prop :=
     (forall tail, decode_stream (d ++ tail) = Some v) /\
     (forall k, (k < length d)%nat -> decode_stream (firstn k d) = None).
-
-  (* io.LimitReader *)
-  Definition seen (limit : Z) (body : str) : str := firstn (Z.to_nat (eff_limit limit)) body.
 
   Lemma limit_bytes d v pad limit :
     is_document d v ->
@@ -992,7 +997,10 @@ Qed.
 Lemma limit_spec :
   (forall n, (n <= 0)%Z -> eff_limit n = defaultMaxMetadataBytes) /\
   (forall n, (0 < n)%Z -> eff_limit n = n) /\
-  (forall limit total, (Z.of_N (max_read limit total) <= eff_limit limit)%Z /\ (max_read limit total <= total)%N) /\
+  (forall limit body,
+     (Z.of_nat (length (seen limit body)) <= eff_limit limit)%Z /\
+     (exists rest, body = seen limit body ++ rest) /\
+     ((Z.of_nat (length body) <= eff_limit limit)%Z -> seen limit body = body)) /\
   (forall c rs p, handle c rs = inr p ->
      rs_json_ok rs = true /\ (Z.of_N (rs_doc_len rs) <= eff_limit (c_limit c))%Z) /\
   (forall c rs, (eff_limit (c_limit c) < Z.of_N (rs_doc_len rs))%Z -> exists e, handle c rs = inl e) /\
@@ -1003,7 +1011,7 @@ Lemma limit_spec :
        rs_json_ok (serve (i + j)%nat rq) = true /\
        (Z.of_N (rs_doc_len (serve (i + j)%nat rq)) <= eff_limit (c_limit c))%Z).
 Proof.
-  split; [exact eff_limit_default|]. split; [exact eff_limit_set|]. split; [exact max_read_le|].
+  split; [exact eff_limit_default|]. split; [exact eff_limit_set|]. split; [exact seen_spec|].
   split; [exact handle_ok_fits|]. split; [exact handle_oversize|]. exact loop_done_all_fit.
 Qed.
 
